@@ -18,7 +18,7 @@
 (* snap = digest of the compiled program, its constants, the variable      *)
 (* values of every collection and the function table.                      *)
 (***************************************************************************)
-EXTENDS Integers, Sequences, Json, TLC
+EXTENDS Integers, Sequences, Json, TLC, Held
 VARIABLES l, pc, fin, gates, seqres, snap0, memo
 Trace == ndJsonDeserialize("trace.ndjson")
 F(ok, name) == IF ok THEN "" ELSE name \o "; "
@@ -59,7 +59,7 @@ Next ==
   /\ l' = l + 1
   /\ LET e == Trace[l] IN
      /\ Apply(e)
-     /\ LET f == Fails(e) IN f = "" \/ PrintT("VERIF-FAIL " \o ToString(l) \o " " \o f)
+     /\ LET f == Fails(e) IN Report(l, f, Trace[l])
 Spec == Init /\ [][Next]_<<l, pc, fin, gates, seqres, snap0, memo>>
 Accepted == TLCGet("stats").diameter - 1 = Len(Trace)
 =============================================================================
